@@ -28,6 +28,21 @@ def verdicts(impl, env, auth):
     return out
 
 
+def shared_containers(v):
+    """pairs of paths at which one and the same dict / list object sits"""
+    seen, out = {}, []
+    def walk(x, path):
+        if isinstance(x, (dict, list)):
+            if id(x) in seen:
+                out.append([seen[id(x)], path])
+                return
+            seen[id(x)] = path
+            for k, y in (x.items() if isinstance(x, dict) else enumerate(x)):
+                walk(y, path + "/" + str(k))
+    walk(v, "")
+    return out
+
+
 def run(ck: Check) -> None:
     from .. import impl
 
@@ -53,6 +68,16 @@ def run(ck: Check) -> None:
             payload = gen.root_md(ks[:1], 1, [gen.key(7)], 1, version=rng.randint(1, 5))
             env = gen.envelope(payload)
             gen.sign_env(env, ks, rng.random() < 0.5, rng)
+        if i % 6 == 2:
+            # an unsigned envelope whose payload has empty containers (the builders' default `"delegations": {}`): nothing in a loaded value is shared
+            # between two places, so signing it touches the signature map only
+            payload = {"type": "key_mgr", "delegations": {}, "notes": [], "more": {"inner": {}, "list": [{}, []]}, "version": 1}
+            env = gen.envelope(payload)
+        if i % 6 == 4 and env["signatures"]:
+            # entries filed under other spellings of a key id, and junk, next to the real ones (C01: they never count) — persisting keeps them exactly as filed
+            k0 = next(iter(env["signatures"]))
+            for alt in rng.sample([k0.upper(), " " + k0, k0 + "\n", "0x" + k0, k0[:-1], "junk", ""], 3):
+                env["signatures"][alt] = rng.choice([copy.deepcopy(env["signatures"][k0]), "x", {"signature": "00" * 64}])
         ops = [rng.choice(["write", "load", "sign-raw", "sign-gpg", "write", "load", "retype-write", "samesize-write", "load-mutate-load", "withdraw-signature-write", "over-foreign-file", "relative-name"]) for _ in range(rng.randint(3, 10))]
         if i % 5 == 1:
             ops.insert(rng.randrange(len(ops) + 1), "sign-gpg")
@@ -219,6 +244,11 @@ def run(ck: Check) -> None:
                 if op == "load":
                     mem2 = impl.common.load_metadata_from_file(fn)
                     ck.oracle_checks += 1
+                    shared = shared_containers(mem2)
+                    if shared:
+                        ck.violation("a loaded value is not a tree: one mutable container object sits at two places, so changing one (adding a signature) changes the other",
+                                     {"written": proto.enc(mem)[:600], "places": shared[:2]}, "load-shares-within-value")
+                        ok = False
                     if not proto.deep_equal(mem2, mem):
                         ck.violation("loading a written file does not give an equal JSON value back", {"written": proto.enc(mem)[:800], "loaded": proto.enc(mem2)[:800]}, "load-differs")
                         ok = False
